@@ -43,6 +43,13 @@ CHECKS = {
             'failures (validate/get/set raising) are injected behind each of the seven front-ends and must yield exception 04.',
             'Trusts vlib/model.py classification (spec state diagrams); two simultaneous faults accept either code.',
             'DESIGN.md 4 C05'),
+    'C06': ('hypothesis frame streams x chunkings; metamorphic oracle (one-frame-per-read delivery vs chunked delivery through a recording decoder proxy); exhaustive cut-set enumeration for short streams',
+            'Generated streams of 1..5 valid frames on four framings and both decoder directions are delivered to a fresh '
+            'framer under generated chunkings (every-k, explicit cut sets near headers and frame boundaries, bit masks over all '
+            'cut positions, empty reads) and the list of (PDU bytes, unit, tid, pid) handed to the decoder must equal the '
+            'one-frame-per-read baseline with no exception; ALL 2^(n-1) cut sets are enumerated for short one- and two-frame streams.',
+            'Streams whose baseline is not clean (recorded findings) are excluded and counted.',
+            'DESIGN.md 4 C06'),
     'C09': ('hypothesis request histories x 7 in-process front-ends x framings x contexts x flags x delivery groupings; oracle = independent frame parser + expected response sequence',
             'Generated histories of well-formed requests of every kind (valid, invalid, unassigned functions, hosted/absent/'
             'broadcast units, listen-only last) delivered one or several per read to each of the seven server front-ends driven '
